@@ -146,6 +146,15 @@ Lemma w_init_spec_start : forall c dur st,
   w_init c dur (Some st) = ({| w_start := st; w_stop := tadd st dur |}, c).
 Proof. reflexivity. Qed.
 
+(* AsyncTimer: the constructed period is [start, start + dur] on the timer's own
+   (event-loop) clock; the wall-clock reading of the constructor never enters *)
+Lemma a_init_spec : forall wall r c dur,
+  a_init wall (r :: c) dur None = ({| w_start := r; w_stop := tadd r dur |}, c).
+Proof. reflexivity. Qed.
+Lemma a_init_spec_start : forall wall c dur st,
+  a_init wall c dur (Some st) = ({| w_start := st; w_stop := tadd st dur |}, c).
+Proof. reflexivity. Qed.
+
 (* ---- MonoTimer: start/restart are Timer's and leave _last alone ---- *)
 Lemma m_restart_spec : forall (s : mono T) c dur,
   m_step s c (MRestart dur) =
